@@ -63,6 +63,157 @@ def ion_rich(rng):
     return [(rng.randint(1, 9), k) for k in ks] + [(rng.randint(1, 4), (8, 0, 0))]
 
 
+def _hill_keys(f):
+    return pyside.struct_keys(f.hill.structure)
+
+
+def named_empty_neutron(run: Run, tbl, formula, syms):
+    """Judged on the real code only (the model has no names, and its symbol table starts at hydrogen):
+      * a formula that carries a common name is the same composition: written in Hill order it equals its own Hill
+        form, and its Hill form is that of the unnamed formula;
+      * the empty formula, however it is spelled, equals its own Hill form and has the Hill form of formula();
+      * the neutron pseudo-element (table[0], symbol 'n', reachable through structures / mappings / atoms only)
+        next to nitrogen and other atoms, in both insertion orders: one Hill form, same counts, idempotent, the
+        other atoms in Hill order (where the lower-case 'n' itself belongs is not judged)."""
+    rng = run.rng
+    # ---- named formulas
+    for i in range(120 if run.tier == "quick" else 2000):
+        ks = []
+        for _ in range(rng.randint(1, 5)):
+            k = gens.gen_atom(rng)
+            if k not in ks:
+                ks.append(k)
+        ks.sort(key=lambda k: oracle_key(k, syms))
+        flat = [(rng.choice([1, 2, 3, 4, 6, 12, 0.5, 2.5]), k) for k in ks]
+        text = render_flat(flat, tbl)
+        name = rng.choice(["sample", "methane", "water", "x", "labelled compound", text + " (named)", "Fe"])
+        how = rng.choice(["keyword", "attribute", "product", "copy"])
+        inp = dict(string=text, name=name, named_by=how)
+        run.count(key="named" + repr(inp), nontrivial=len(ks) > 1, sample=repr(inp), tag="named")
+        try:
+            plain = formula(text)
+            if how == "keyword":
+                f = formula(text, name=name)
+            elif how == "attribute":
+                f = formula(text)
+                f.name = name
+            elif how == "copy":
+                f = formula(formula(text, name=name))
+            else:
+                f = 1 * formula(text, name=name)        # n*f keeps the name
+            h = f.hill
+            verdicts = [("a named formula written in Hill order differs from its own Hill form", f == h and h == f),
+                        ("the Hill form of a named formula differs from the Hill form of the same formula without "
+                         "the name", h == plain.hill and plain.hill == h),
+                        ("taking the Hill form of a named formula twice changes it", h.hill == h),
+                        ("the Hill form of a named formula has other atom counts", h.atoms == plain.atoms)]
+        except Exception as e:  # noqa
+            run.violation("Hill form of a named formula raised %s: %s" % (type(e).__name__, str(e)[:80]), inp)
+            continue
+        for what, ok in verdicts:
+            if not ok:
+                run.violation(what, inp, structure=str(pyside.struct_keys(f.structure)), hill=str(_hill_keys(f)))
+                break
+    # ---- the empty formula
+    spellings = [("formula()", lambda: formula()), ("formula('')", lambda: formula("")),
+                 ("formula(None)", lambda: formula(None)), ("formula('   ')", lambda: formula("   ")),
+                 ("formula([])", lambda: formula([])), ("formula({})", lambda: formula({})),
+                 ("formula(())", lambda: formula(())), ("3*formula('')", lambda: 3 * formula("")),
+                 ("formula('')+formula('')", lambda: formula("") + formula("")),
+                 ("formula(formula(''))", lambda: formula(formula(""))),
+                 ("formula('', name='nothing')", lambda: formula("", name="nothing")),
+                 ("formula('').hill", lambda: formula("").hill)]
+    for label, make in spellings:
+        inp = dict(empty=label)
+        run.count(key="empty" + label, nontrivial=True, sample=label, tag="empty")
+        try:
+            e = make()
+            if e.atoms:
+                continue        # not an empty formula after all: nothing to say here
+            h = e.hill
+            ref = formula()
+            ch4 = formula("CH4")
+            verdicts = [("the empty formula differs from its own Hill form", e == h and h == e),
+                        ("the Hill form of the empty formula is not the Hill form of formula()",
+                         h == ref.hill and ref.hill == h),
+                        ("the Hill form of the empty formula differs from the empty formula formula()",
+                         h == ref and ref == h),
+                        ("the Hill form of the empty formula has atoms", not h.atoms),
+                        ("taking the Hill form of the empty formula twice changes it", h.hill == h),
+                        ("adding CH4 to the Hill form of the empty formula does not give CH4",
+                         (h + ch4).hill == ch4.hill)]
+        except Exception as ex:  # noqa
+            run.violation("Hill form of the empty formula raised %s: %s" % (type(ex).__name__, str(ex)[:80]), inp)
+            continue
+        for what, ok in verdicts:
+            if not ok:
+                run.violation(what, inp, structure=repr(e.structure), hill=repr(h.structure))
+                break
+    # ---- the neutron next to nitrogen (and others), in both insertion orders
+    nitrogens = [(7, 0, 0), (7, 0, 0), (7, 15, 0), (7, 0, -3), (7, 14, 0)]
+    for i in range(150 if run.tier == "quick" else 2500):
+        ks = [(0, 0, 0)]
+        if rng.random() < 0.3:
+            ks.append((0, 1, 0))
+        if rng.random() < 0.8:
+            ks.append(rng.choice(nitrogens))
+        for _ in range(rng.randint(0, 3)):
+            k = gens.gen_atom(rng) if rng.random() < 0.6 else rng.choice([(11, 0, 0), (10, 0, 0), (28, 0, 0), (40, 0, 0),
+                                                                         (6, 0, 0), (1, 0, 0), (8, 0, 0), (7, 0, 0)])
+            if k not in ks:
+                ks.append(k)
+        counts = {k: rng.choice([1, 1, 2, 3, 4, 7, 0.5, 2.5]) for k in ks}
+        order = list(ks)
+        rng.shuffle(order)
+        how = rng.choice(["structure", "mapping", "sum", "iadd"])
+        inp = dict(atoms=[(counts[k], k) for k in order], built_as=how)
+        run.count(key="neutron" + repr(inp), nontrivial=len(ks) > 1, sample=repr(inp),
+                  tag="neutron+N" if any(k[0] == 7 for k in ks) else "neutron")
+
+        def build(seq):
+            if how == "structure":
+                return formula([(counts[k], pyside.atom_of(k, tbl)) for k in seq])
+            if how == "mapping":
+                d = {}
+                for k in seq:
+                    d[pyside.atom_of(k, tbl)] = counts[k]
+                return formula(d)
+            f = formula()
+            for k in seq:
+                if how == "sum":
+                    f = f + counts[k] * formula(pyside.atom_of(k, tbl))
+                else:
+                    f += counts[k] * formula(pyside.atom_of(k, tbl))
+            return f
+        try:
+            fwd, rev = build(order), build(order[::-1])
+            hf, hr = fwd.hill, rev.hill
+            kf = pyside.struct_keys(hf.structure)
+            kr = pyside.struct_keys(hr.structure)
+            again = formula([(c, pyside.atom_of(k, tbl)) for c, k in kf])
+            ha = again.hill
+            idem = hf.hill == hf and hr.hill == hr
+        except Exception as e:  # noqa
+            run.violation("Hill form of a formula with the neutron raised %s: %s" % (type(e).__name__, str(e)[:80]), inp)
+            continue
+        if not (hf == hr and hr == hf) or [k for _, k in kf] != [k for _, k in kr]:
+            run.violation("two formulas with equal atom counts (the same atoms given in opposite orders) have "
+                          "different Hill forms", inp, forward=str(kf), backward=str(kr))
+            continue
+        if not all(pyside.is_key(k) for _, k in kf) or {k: c for c, k in kf} != counts:
+            run.violation("Hill form changes the atom counts", inp, got=str(kf))
+            continue
+        if not idem:
+            run.violation("taking the Hill form twice changes it", inp, got=str(kf))
+            continue
+        if not (ha == hf and again == ha):
+            run.violation("a formula built in the order of a Hill form differs from its own Hill form", inp, got=str(kf))
+            continue
+        rest = [k for _, k in kf if k[0] != 0]
+        if rest != sorted(rest, key=lambda k: oracle_key(k, syms)):
+            run.violation("Hill form not in C, H, then alphabetical / isotope / charge order", inp, got=str(kf))
+
+
 def run(run: Run) -> int:
     pt = import_repo()
     from periodictable.formulas import formula
@@ -195,6 +346,7 @@ def run(run: Run) -> int:
                 "differs from the formula written in Hill order / has other atom counts"),
                 dict(string=text, table="private"))
     core.PRIVATE_TABLES.pop("c19-private", None)
+    named_empty_neutron(run, tbl, formula, syms)
     return run.finish(RULE, assumptions=[
         "the symbol string order is abstracted to the number 256*c1+c2 (valid for one/two-letter ASCII symbols; "
         "the translator refuses other symbols)",
